@@ -232,10 +232,11 @@ def _bcd_epoch(X, y, w, Xw, lipschitz, datafit, penalty, ws):
         old_w_g = w[grp_g_indices].copy()
 
         lipschitz_g = lipschitz[g]
+        stepsize = 1 / lipschitz_g if lipschitz_g != 0 else 1000
         grad_g = datafit.gradient_g(X, y, w, Xw, g)
 
         w[grp_g_indices] = penalty.prox_1group(
-            old_w_g - grad_g / lipschitz_g, 1 / lipschitz_g, g)
+            old_w_g - grad_g * stepsize, stepsize, g)
 
         for idx, j in enumerate(grp_g_indices):
             if old_w_g[idx] != w[j]:
@@ -253,10 +254,11 @@ def _bcd_epoch_sparse(
         old_w_g = w[grp_g_indices].copy()
 
         lipschitz_g = lipschitz[g]
+        stepsize = 1 / lipschitz_g if lipschitz_g != 0 else 1000
         grad_g = datafit.gradient_g_sparse(X_data, X_indptr, X_indices, y, w, Xw, g)
 
         w[grp_g_indices] = penalty.prox_1group(
-            old_w_g - grad_g / lipschitz_g, 1 / lipschitz_g, g)
+            old_w_g - grad_g * stepsize, stepsize, g)
 
         for idx, j in enumerate(grp_g_indices):
             if old_w_g[idx] != w[j]:
